@@ -1,4 +1,5 @@
 import os
+import warnings
 import numpy as np
 import hpgeom as hpg
 
@@ -395,7 +396,8 @@ def _read_healsparse_fits_file_and_degrade(filename, pixels, nside_out, reductio
                              "pixels to read." % (weightfile))
         use_weightfile = True
     elif weightfile is not None:
-        raise Warning('Weightfile specified but wmean reduction mode is not set.  Ignoring weightfile')
+        warnings.warn('Weightfile specified but wmean reduction mode is not set.  Ignoring weightfile',
+                      UserWarning)
 
     nside_coverage = cov_map.nside_coverage
 
